@@ -95,6 +95,21 @@ static void dense_sequence(rng_t *r, int len)
 			g_op = "copycols"; of_mod2dense_copycols(g_d[0].m, g_d[b].m, cols);
 			memset(g_d[b].M, 0, sizeof g_d[b].M); for (int x = 0; x < g_d[b].C; x++) for (int y = 0; y < g_d[0].R; y++) g_d[b].M[y][x] = g_d[0].M[y][cols[x]]; k = b; }
 		else if (op < 96) { int t = (int)rng_below(r, (uint32_t)d->R); g_op = "xor_rows"; of_mod2dense_xor_rows(d->m, (UINT16)i, (UINT16)t); if (t != i) for (int x = 0; x < d->C; x++) d->M[t][x] ^= d->M[i][x]; else memset(d->M[t], 0, (size_t)d->C); }
+		else if (op >= 98 && d->R >= d->C) {
+			/* the exported solver pivots by exchanging the matrix's row pointers: afterwards the object is still a valid matrix for the whole
+			 * API, but its rows are no longer stored back to back. The model is re-read bit by bit and the sequence goes on with this matrix. */
+			g_op = "solve_dense_system";
+			of_linear_binary_code_cb_t cb; memset(&cb, 0, sizeof cb); cb.encoding_symbol_length = 1;
+			cb.tmp_tab_symbols = malloc(sizeof(void *) * (size_t)(d->R + d->C + 4));
+			void **ct = calloc((size_t)d->R, sizeof *ct), **vt = calloc((size_t)d->C, sizeof *vt);
+			for (int x = 0; x < d->R; x++) ct[x] = of_calloc(1, 1);
+			(void)of_linear_binary_code_solve_dense_system(&cb, d->m, ct, vt);
+			for (int x = 0; x < d->C; x++) if (vt[x]) of_free(vt[x]);
+			for (int x = 0; x < d->R; x++) if (ct[x]) of_free(ct[x]);
+			free(ct); free(vt); free(cb.tmp_tab_symbols);
+			for (int x = 0; x < d->R; x++) for (int y = 0; y < d->C; y++) d->M[x][y] = of_mod2dense_get(d->m, (UINT32)x, (UINT32)y) ? 1 : 0;
+			rep_count("matrices_reused_after_the_solver_permuted_their_rows", 1);
+		}
 		else { /* sparse <-> dense conversions agree with the model too */
 			g_op = "dense_to_sparse"; of_mod2sparse *sp = of_mod2sparse_allocate((UINT32)d->R, (UINT32)d->C); of_mod2dense_to_sparse(d->m, sp);
 			for (int x = 0; x < d->R; x++) for (int y = 0; y < d->C; y++) if ((of_mod2sparse_find(sp, (UINT32)x, (UINT32)y) != NULL) != (d->M[x][y] != 0)) { vio("entry (%d,%d)", x, y); x = d->R; break; }
